@@ -44,3 +44,25 @@ pub fn t_opt_cmp(a: Option<&f64>, b: &f64) -> bool { a <= Some(b) }
 pub fn t_opt_gt(a: Option<&f64>, b: Option<&f64>) -> bool { PartialOrd::gt(&a, &b) }
 pub fn t_clamp_if(index: usize, last: usize) -> usize { let mut i = index; if last < i { i = last; } i }
 pub fn t_clamp_pair(a: usize, b: usize, last: usize) -> (usize, usize) { let mut x = a; if last < x { x = last; } let mut y = b; if last < y { y = last; } (x, y) }
+
+// ---- std range `contains` (models added for round H)
+pub fn range_incl(x: f64) -> bool {
+    (0.0..=1.0).contains(&x)
+}
+pub fn range_excl(x: u32) -> bool {
+    (3..7).contains(&x)
+}
+pub fn bound_pair(x: f64) -> bool {
+    use core::ops::{Bound, RangeBounds};
+    (Bound::Excluded(0.), Bound::Excluded(1.)).contains(&x)
+}
+const CLOSED_UNIT_T: core::ops::RangeInclusive<f64> = 0. ..=1.;
+pub fn range_const(x: f64) -> bool {
+    CLOSED_UNIT_T.contains(&x)
+}
+pub fn range_from(x: i32) -> bool {
+    (5..).contains(&x)
+}
+pub fn range_to_incl(x: i32) -> bool {
+    (..=5).contains(&x)
+}
